@@ -940,3 +940,40 @@ func main() {
 		panic(err)
 	}
 }
+
+// trustedTemplateTypes: every use of html/template's "trusted content" types (values of these types are written
+// without escaping) in the non-test sources of the given directories, as "file: type".
+func trustedTemplateTypes(fact string, props []string, dirs ...string) {
+	trusted := map[string]bool{"HTML": true, "HTMLAttr": true, "JS": true, "JSStr": true, "CSS": true, "URL": true, "Srcset": true}
+	var out []string
+	for _, d := range dirs {
+		ents, err := os.ReadDir(filepath.Join(repo, d))
+		if err != nil {
+			fail(fact, props, d+": "+err.Error())
+			return
+		}
+		for _, e := range ents {
+			n := e.Name()
+			if e.IsDir() || !strings.HasSuffix(n, ".go") || strings.HasSuffix(n, "_test.go") {
+				continue
+			}
+			f := parse(filepath.Join(d, n))
+			if f == nil {
+				fail(fact, props, filepath.Join(d, n)+" does not parse")
+				return
+			}
+			ast.Inspect(f, func(x ast.Node) bool {
+				se, ok := x.(*ast.SelectorExpr)
+				if !ok {
+					return true
+				}
+				if id, ok := se.X.(*ast.Ident); ok && id.Name == "template" && trusted[se.Sel.Name] {
+					out = append(out, filepath.Join(d, n)+": template."+se.Sel.Name)
+				}
+				return true
+			})
+		}
+	}
+	sort.Strings(out)
+	emitStrList(fact, props, out)
+}
